@@ -21,10 +21,10 @@ from mc.par import pmap
 from mc.report import Report
 
 LEVEL = "model_checking"
-RULE = ("BFS over action sequences {enter one of 4 contexts (auto_checkpoint(p1,every=1), auto_checkpoint(p2,every=2,"
+RULE = ("BFS over action sequences {construct a context manager now and enter it later (once per history), enter one of 4 contexts (auto_checkpoint(p1,every=1), auto_checkpoint(p2,every=2,"
         "save_config=False), enable_pool(close_pool=True), enable_pool(close_pool=False, parallelize_prior=True)), leave the "
         "innermost context normally, sample inside the body (real importance run), raise Exception-subclass, raise "
-        "KeyboardInterrupt} with nesting depth <=3 (quick) / 4 (thorough) and <=6/7 actions; abstract state = (context stack, "
+        "KeyboardInterrupt} with nesting depth <=3 (quick) / 4 (thorough) and <=5/7 actions; abstract state = (context stack, "
         "likelihood/prior wrapping depth, checkpoint-defaults content or ABSENT, per-pool close/join counters, sampled flag, "
         "unwound flag); every transition is executed on a real Aspire instance")
 ASSUMPTIONS = [
@@ -83,6 +83,8 @@ class World:
         self.problems = []  # (signature, detail)
         self.unwound = False
         self.sampled = 0
+        self.prepared = None
+        self.prepared_once = False
         self.pre = self.snapshot()
 
     def snapshot(self):
@@ -110,8 +112,7 @@ class World:
     def path(self, name):
         return os.path.join(self.tmpdir, f"{name}.h5")
 
-    def enter(self, c):
-        snap = self.snapshot()
+    def make(self, c):
         pool = None
         if c == "A1":
             cm = self.a.auto_checkpoint(self.path(f"p1_{len(self.entered)}"), every=1)
@@ -125,6 +126,25 @@ class World:
             cm = self.a.enable_pool(pool, close_pool=False, parallelize_prior=True)
         if pool is not None:
             self.pools.append((pool, c))
+        return cm, pool
+
+    def enter(self, c):
+        cm, pool = self.make(c)
+        self._enter(c, cm, pool)
+
+    def prepare(self, c):
+        """Construct the context manager now, enter it later (h = aspire.enable_pool(...); ...; with h:)."""
+        cm, pool = self.make(c)
+        self.prepared = (c, cm, pool)
+        self.prepared_once = True
+
+    def enter_prepared(self):
+        c, cm, pool = self.prepared
+        self.prepared = None
+        self._enter(c, cm, pool)
+
+    def _enter(self, c, cm, pool):
+        snap = self.snapshot()
         self.stack.enter_context(cm)
         self.entered.append({"ctx": c, "snap": snap, "pool": pool})
         self.inside_checks()
@@ -209,6 +229,14 @@ class World:
         if not self.entered and not self.unwound:
             self.same(self.pre, "all-contexts-left")
 
+    def _pool_sig(self):
+        live = [id(e["pool"]) for e in self.entered if e["pool"] is not None]
+        prep = id(self.prepared[2]) if self.prepared and self.prepared[2] is not None else None
+        in_stack = tuple((c, p.closed, p.joined) for e in self.entered for p, c in self.pools if e["pool"] is p)
+        prepared = tuple((c, p.closed, p.joined) for p, c in self.pools if id(p) == prep)
+        done = tuple(sorted((c, p.closed, p.joined) for p, c in self.pools if id(p) not in live and id(p) != prep))
+        return (in_stack, prepared, done)
+
     def key(self):
         d = getattr(self.a, "_checkpoint_defaults", ABSENT)
         dv = ABSENT if d is ABSENT else (os.path.basename(d["path"]).split("_")[0], d["every"], d["save_config"],
@@ -226,8 +254,8 @@ class World:
                                                o.get("saved_config"), o.get("saved_flow"))
 
         saved = tuple(dsig(e["snap"]["defaults_obj"]) for e in self.entered)
-        return (tuple(e["ctx"] for e in self.entered), saved, depth(self.a.log_likelihood), depth(self.a.log_prior), dv,
-                tuple((c, p.closed, p.joined) for p, c in self.pools), self.sampled > 0, self.unwound,
+        return (tuple(e["ctx"] for e in self.entered), self.prepared[0] if self.prepared else None, saved, depth(self.a.log_likelihood), depth(self.a.log_prior), dv,
+                self._pool_sig(), self.sampled > 0, self.unwound, self.prepared_once,
                 tuple(sorted(set(s for s, _ in self.problems))))
 
 
@@ -236,6 +264,10 @@ def build_world(hist, tmpdir):
     for a in hist:
         if a[0] == "enter":
             w.enter(a[1])
+        elif a[0] == "prepare":
+            w.prepare(a[1])
+        elif a[0] == "enter-prepared":
+            w.enter_prepared()
         elif a[0] == "exit":
             w.exit_one()
         elif a[0] == "raise":
@@ -262,6 +294,10 @@ def run_bfs(arg):
             acts = []
             if len(w.entered) < max_nest:
                 acts += [("enter", c) for c in CONTEXTS]
+                if w.prepared is not None:
+                    acts.append(("enter-prepared",))
+            if w.prepared is None and not w.prepared_once:
+                acts += [("prepare", c) for c in ("P1", "A1")]
             if w.entered:
                 acts.append(("exit",))
                 acts.append(("raise", "Exception"))
@@ -288,6 +324,10 @@ def run_bfs(arg):
             r.transitions.add((explorer.digest(k), explorer.digest(a), explorer.digest(nk)))
 
         res = B.bfs([()], build, actions, canon, on_state, max_actions, bisim=True, on_transition=on_transition)
+        if res["bisim_mismatches"]:
+            if not r.violations:
+                raise B.BisimulationError(res["bisim_mismatches"][0])
+            r.count("bisimulation_mismatches_explained_by_violations", len(res["bisim_mismatches"]))
         r.count("histories", res["histories"])
         r.count("bisim_checked_states", res["bisim_checked"])
         r.count("max_depth", res["depth"])
@@ -299,7 +339,7 @@ def run_bfs(arg):
 
 def run(tier, seed, workers):
     rep = Report()
-    jobs = [(3, 6)] if tier == "quick" else [(4, 7)]
+    jobs = [(3, 5)] if tier == "quick" else [(4, 7)]
     for d in pmap("checks.c19", "run_bfs", jobs, 1):
         rep.merge(d)
     return rep
